@@ -20,7 +20,9 @@ def eq_twins(seed, count, shard, nshards, hashmode=0):
         ops = ["new %s 0" % kind] + ["push 0 %d %d %d" % (k, 100 + i, p) for i, (k, p) in enumerate(pairs)]
         sh = pairs[:]
         rng.shuffle(sh)
-        ops += ["new %s 1" % kind] + ["push 1 %d %d %d" % (k, 200 + i, p) for i, (k, p) in enumerate(sh)]
+        # tags take no part in the priorities' PartialEq: the twins stay equal
+        tg = "/%d" % rng.randrange(1, 4) if rng.randrange(10) < 3 else ""
+        ops += ["new %s 1" % kind] + ["push 1 %d %d %d%s" % (k, 200 + i, p, tg) for i, (k, p) in enumerate(sh)]
         ops += ["eq 0 1", "eq 1 0"]
         cur = dict(pairs)
         for _ in range(rng.randrange(0, 6)):          # perturb register 1 and come back
